@@ -759,6 +759,26 @@ def check_module_level(tree, fname, class_names):
     for st in tree.body:
         if isinstance(st, (ast.If, ast.Try, ast.With, ast.For, ast.While)):
             fail('module-level compound statement cannot be classified', st, fname)
+        # mutable state OUTSIDE the graph objects (a module-level memo survives every reset of every graph): the cache discipline
+        # described by the tables would no longer be the whole story
+        if isinstance(st, (ast.Assign, ast.AnnAssign)) and st.value is not None:
+            for x in ast.walk(st.value):
+                if isinstance(x, (ast.Dict, ast.List, ast.Set, ast.DictComp, ast.ListComp, ast.SetComp)):
+                    fail('module-level mutable container `%s`' % ast.unparse(st)[:60], st, fname)
+                if isinstance(x, ast.Call):
+                    f = x.func
+                    nm = f.id if isinstance(f, ast.Name) else (f.attr if isinstance(f, ast.Attribute) else '')
+                    if nm in ('dict', 'list', 'set', 'defaultdict', 'OrderedDict', 'Counter', 'deque', 'WeakValueDictionary',
+                              'WeakKeyDictionary', 'bytearray', 'ChainMap'):
+                        fail('module-level mutable container `%s`' % ast.unparse(st)[:60], st, fname)
+    for n in ast.walk(tree):
+        if isinstance(n, ast.Global):
+            fail('`global` statement (module-level state written from a function)', n, fname)
+        if isinstance(n, (ast.FunctionDef, ast.AsyncFunctionDef)):
+            for d in n.decorator_list:
+                txt = ast.unparse(d)
+                if any(k in txt for k in ('lru_cache', 'functools.cache', 'cached_property', 'cache')) and 'reset_cached' not in txt:
+                    fail('memoising decorator `%s` on %s (a cache that no reset reaches)' % (txt, n.name), n, fname)
 
 
 def scan_interfaces(tree, fname, watched):
